@@ -213,7 +213,9 @@ pub fn encode_block(e: &mut Enc, raw: &[u8], mode: Mode) -> (usize, u8) {
             e.bytes(&c);
         }
     }
-    e.pad_to(128);
+    // the stored block (header + payload) is padded to a multiple of 128 bytes
+    let len = e.pos() - start;
+    e.zeros(((len + 127) & !127) - len);
     (e.pos() - start, btype)
 }
 
